@@ -23,13 +23,14 @@ type HarnessDef struct {
 	Thorough  map[string]int
 	Race      bool
 	MapOrder  bool
-	Preempt   [2]int // quick, thorough preemption bounds (0 => default 2/3)
+	Preempt   [2]int   // quick, thorough preemption bounds (0 => default 2/3)
 	Covers    []string // labels that must be covered (vacuity guard)
 	MaxSteps  int
 	LoopBound int
 	MaxPaths  [2]int // optional safety cap per tier (hit => reduced bound reported as failure)
 	NoReplay  bool   // harness cannot be replayed natively (concurrent schedules, model-only environment)
 	SolverMs  [2]int
+	OSSwap    []string // packages whose "os" import is pointed at verifrt/vos in the native replay build (real op log for crash images)
 }
 
 type CheckDef struct {
@@ -39,6 +40,8 @@ type CheckDef struct {
 	Assumptions []string
 	Stubs       []string
 	Outside     []string
+	Claim       string // what the solver decides (MANIFEST level_claimed.text)
+	Trusted     string // MANIFEST level_note
 }
 
 type KnownFinding struct {
@@ -83,6 +86,7 @@ func cmdCheck(args []string) int {
 	workers := fs.Int("workers", runtime.NumCPU(), "workers")
 	verbose := fs.Bool("v", false, "verbose")
 	only := fs.String("only", "", "run only this harness (development)")
+	budget := fs.Int("budget", 600, "wall-clock budget per harness in seconds (x6 in the thorough tier); exceeding it fails the check as incomplete")
 	noReplay := fs.Bool("noreplay", false, "skip native replay/validation (development)")
 	fs.Parse(args[1:])
 	seed, _ := strconv.ParseInt(envOr("VERIF_SEED", "1"), 10, 64)
@@ -177,7 +181,7 @@ func cmdCheck(args []string) int {
 		if h.SolverMs[ti] > 0 {
 			solverMs = h.SolverMs[ti]
 		}
-		opts := sym.ExploreOpts{Workers: *workers, SolverTimeoutMs: solverMs, Samples: 3 + 7*ti, Seed: seed, MaxPaths: h.MaxPaths[ti]}
+		opts := sym.ExploreOpts{Workers: *workers, SolverTimeoutMs: solverMs, Samples: 3 + 7*ti, Seed: seed, MaxPaths: h.MaxPaths[ti], Deadline: time.Now().Add(time.Duration(*budget*(1+5*ti)) * time.Second)}
 		st, err := eng.Explore(sym.Harness{Pkg: fullPkg(h.Pkg), Func: h.Func}, cfg, opts)
 		if err != nil {
 			broken = append(broken, h.Func+": "+err.Error())
@@ -202,7 +206,7 @@ func cmdCheck(args []string) int {
 			broken = append(broken, fmt.Sprintf("%s: %d inconclusive solver answers (%v)", h.Func, st.Inconclusive, st.SolverErrs))
 		}
 		if st.PathLimitHit {
-			broken = append(broken, fmt.Sprintf("%s: path limit hit before the bound was exhausted", h.Func))
+			broken = append(broken, fmt.Sprintf("%s: path limit or time budget hit before the bound was exhausted", h.Func))
 		}
 		for _, c := range h.Covers {
 			if !st.Covers[c] {
@@ -370,23 +374,23 @@ func writeEvidence(def *CheckDef, tier string, seed int64, all []*sym.ExploreSta
 		"seed":        seed,
 		"level":       "model_checking",
 		"coverage": map[string]any{
-			"states":                        states,
-			"transitions":                   transitions,
-			"traces_validated_against_impl": validated,
-			"samples":                       samples,
-			"explanation":                   "states = completed symbolic paths of the real SSA; transitions = decisions taken (symbolic branches, harness choices, scheduler/crash/fault choices); every branch feasibility and every assertion is an SMT query over all values of the symbolic inputs",
-			"functions_encoded":             flist,
-			"library_functions_interpreted": libInterp,
-			"intrinsics_and_stubs":          intr,
-			"stubs":                         def.Stubs,
-			"bounds":                        bounds,
-			"outside_claim":                 def.Outside,
-			"queries":                       queries,
-			"solver_time_s":                 solverS,
-			"per_harness":                   perHarness,
+			"states":                         states,
+			"transitions":                    transitions,
+			"traces_validated_against_impl":  validated,
+			"samples":                        samples,
+			"explanation":                    "states = completed symbolic paths of the real SSA; transitions = decisions taken (symbolic branches, harness choices, scheduler/crash/fault choices); every branch feasibility and every assertion is an SMT query over all values of the symbolic inputs",
+			"functions_encoded":              flist,
+			"library_functions_interpreted":  libInterp,
+			"intrinsics_and_stubs":           intr,
+			"stubs":                          def.Stubs,
+			"bounds":                         bounds,
+			"outside_claim":                  def.Outside,
+			"queries":                        queries,
+			"solver_time_s":                  solverS,
+			"per_harness":                    perHarness,
 			"partially_initialised_packages": initSkips,
-			"engine_problems":               broken,
-			"solver":                        "z3 4.8.12 (-in, push/pop per path)",
+			"engine_problems":                broken,
+			"solver":                         "z3 4.8.12 (-in, push/pop per path)",
 		},
 		"assumptions": def.Assumptions,
 		"wall_s":      wall.Seconds(),
